@@ -104,9 +104,17 @@ def r01_2(ctx):
 def r01_3(ctx):
     r = RuleResult("R01.3", "K1", "association set-up must not clobber an established association")
     def state_tested(term, meaning, *_):
-        # any branch on the association state (self.state) - e.g. `*self.state.lock() == SctpState::Connected`
-        return mir.has(term, lambda x: x[0] == "call" and x[1].endswith("::lock") and x[2] and x[2][0][0] == "field" and x[2][0][2] == "state") or \
-            mir.has(term, lambda x: x[0] == "agg" and x[1].endswith("SctpState"))
+        # the edge on which the association is known NOT to be established: `*self.state.lock() == Connected` false,
+        # `!= Connected` true, or `== Connecting / New` true
+        if not (term[0] == "call" and "PartialEq" in term[1] and isinstance(meaning, bool)):
+            return False
+        if not mir.has(term, lambda x: x[0] == "call" and x[1].endswith("::lock") and x[2] and x[2][0][0] == "field" and x[2][0][2] == "state"):
+            return False
+        vs = [x[2] for x in mir.walk(term) if x[0] == "agg" and x[1].endswith("SctpState")]
+        if len(vs) != 1:
+            return False
+        eq_edge = meaning is term[1].endswith("::eq")
+        return (vs[0] == "Connected" and not eq_edge) or (vs[0] in ("Connecting", "New") and eq_edge)
     for fn in ("handle_init", "handle_init_ack"):
         b = ctx.body(S + fn + "::{closure#0}")
         r.scope.append(b.name)
@@ -124,6 +132,22 @@ def r01_3(ctx):
                 r.violate(b.name, "store:%s" % f, b.where(bi),
                           "%s overwrites %s without looking at the association state: a duplicated or late %s resets an established association" % (
                               fn, f, "INIT" if fn == "handle_init" else "INIT-ACK"))
+    # a copy of the INIT that is being answered (same initiate tag, association not up yet) must get the SAME INIT-ACK:
+    # the values this side chooses - its verification tag and its initial TSN - are fresh random numbers only on the
+    # edge where the INIT is not such a copy; otherwise they are the stored ones
+    b = ctx.body(S + "handle_init::{closure#0}")
+    for f in ("verification_tag", "next_tsn"):
+        for bi, t, args in core.atomic_sites(b, f, "store"):
+            v = args[1]
+            alts = list(v[1]) if v[0] == "phi" and isinstance(v[1], tuple) else (b.var_def_terms(v[2]) if v[0] == "var" and len(v) > 2 else [v])
+            reuse = any(core.is_atomic_load(a, f) or mir.has(a, lambda x: core.is_atomic_load(x, f)) for a in alts)
+            fresh = any(mir.has(a, lambda x: x[0] == "call" and x[1].endswith("random_u32")) for a in alts)
+            if reuse and fresh:
+                r.ok({"site": b.where(bi), "field": f, "value": "stored value for a retransmitted INIT, fresh otherwise"})
+            else:
+                r.violate(b.name, "init-ack:%s" % f, b.where(bi),
+                          "every INIT gets a freshly drawn %s: a duplicated INIT datagram (or the peer's T1 retransmission) is answered "
+                          "with an INIT-ACK that disagrees with the one the peer may already have acted on" % f)
     return r
 
 
